@@ -473,7 +473,7 @@ Section Str.
       c = a \/ (wch u a = true /\ wch u c = true /\ char3 u c = true)
             \/ (ochar u a = true /\ ochar u c = true /\ char3 u c = true).
   Definition alnum_stable_text (s : text) : Prop :=
-    Forall (fun a => char3 u a = true /\ case_stable3 a) s /\ ctx_ok3 u s = true.
+    Forall (fun a => char3 u a = true /\ case_stable3 a) s /\ ctx_ok3 u None s = true.
   Definition alnum_case_closed : Prop := forall a, char3 u a = true -> case_stable3 a.
 
   Lemma alnum_stable_of_closed s : alnum_case_closed -> alnum_text u s = true -> alnum_stable_text s.
@@ -517,7 +517,7 @@ Section Str.
     pose proof (str_rel _ _ Hla Hua Hapo H) as HR.
     destruct (alnum_rel_Rl _ _ Hf Hps HR) as [HRl Hp'].
     assert (Hd' : Alnum u out).
-    { split; [exact Hp'|]. rewrite (ctx_ok3_congr u src out HRl). exact Hctx. }
+    { split; [exact Hp'|]. rewrite (ctx_ok3_congr0 u src out HRl). exact Hctx. }
     split; [|apply alnum_text_Alnum; exact Hd'].
     apply (str_relex_of_lexer src out Hla Hua Hapo Hf Hdm H).
     apply plain_parse_alnum; assumption.
@@ -854,8 +854,15 @@ Lemma alnum_patterns_witnessed :
    plain_parse ascii_uni [48; 88; 49]%N <> plain_parse ascii_uni [48; 120; 49]%N).
 Proof. repeat split; try (vm_compute; reflexivity); vm_compute; discriminate. Qed.
 
-(* what the refined hostname clause of Q_plural no longer excludes (C18LexDots' pattern did): `as-is`, `as.`, `as.b.` *)
+(* what the refined hostname clause of Q_plural no longer excludes (C18LexDots' pattern did): `as-is`, `as.b.`;
+   what the look-behind admits: `john's` (Q_apos at `n's`, after a word character), `this.is` (Q_plural at `is.is`),
+   `mp3s` (Q_plural at `3s`) — while `a's`, `is.is`, `3s` at the start of the text or after a blank stay excluded *)
 Lemma alnum_refines_dotted :
   alnum_text ascii_uni [97; 115; 45; 105; 115]%N = true /\ dotted_text ascii_uni [97; 115; 45; 105; 115]%N = false /\
-  alnum_text ascii_uni [97; 115; 46; 98; 46]%N = true /\ dotted_text ascii_uni [97; 115; 46; 98; 46]%N = false.
+  alnum_text ascii_uni [97; 115; 46; 98; 46]%N = true /\ dotted_text ascii_uni [97; 115; 46; 98; 46]%N = false /\
+  alnum_text ascii_uni [106; 111; 104; 110; 39; 115]%N = true /\
+  alnum_text ascii_uni [116; 104; 105; 115; 46; 105; 115]%N = true /\ dotted_text ascii_uni [116; 104; 105; 115; 46; 105; 115]%N = false /\
+  alnum_text ascii_uni [109; 112; 51; 115]%N = true /\
+  alnum_text ascii_uni [32; 97; 39; 115]%N = false /\ alnum_text ascii_uni [105; 115; 46; 105; 115]%N = false /\
+  alnum_text ascii_uni [32; 51; 115]%N = false.
 Proof. repeat split; vm_compute; reflexivity. Qed.
